@@ -920,6 +920,9 @@ class Interp:
         pre = st.copy()
         mark = len(self.events)
         alive = self.exec_block(s.body, st)
+        if alive and s.orelse:
+            # the else clause belongs to the path on which the body raised nothing
+            alive = self.exec_block(s.orelse, st)
         results = [(None, st if alive else None)]
         for h in s.handlers:
             name = ast.unparse(h.type) if h.type is not None else "BaseException"
@@ -968,8 +971,6 @@ class Interp:
                 acc.pc = pre.pc
                 st.become(acc)
                 alive = True
-        if alive and s.orelse:
-            alive = self.exec_block(s.orelse, st)
         if alive and s.finalbody:
             alive = self.exec_block(s.finalbody, st)
         return alive
